@@ -305,6 +305,48 @@ def run(ctx):
     ctx.check(aff_cpu_labelled, "R13.2", "cpu-affinity:gindex+1-labelled", sc.loc(),
               "system_connect no longer labels each CPU (gindex+1) in the thread affinity type")
 
+    # ---- task-type labels: every type of every process ends up labelled ----------------------------------
+    tcp = prog.fn("task_create_pcf_types", "src/emu/task.c")
+    HHn = F("task_type", "hh") + F("UT_hash_handle", "next")
+    import itertools as _it
+    for present in _it.product((0, 1), repeat=3):
+        for collide in ((None,) if not any(present) else (None, present.index(1))):
+            added = []
+
+            def s_find(ex_, st, a, f, e, present=present):
+                g = a[1][1] - 11 if a[1][0] == "int" else -1
+                return [((PTR("PV%d" % g) if 0 <= g < 3 and present[g] else NULL), {})]
+
+            def s_add(ex_, st, a, f, e, added=added):
+                added.append(a[1])
+                return [(PTR("NEWPV"), {})]
+
+            def s_cmp(ex_, st, a, f, e, collide=collide):
+                for x in a[:2]:
+                    if x[0] == "ptr" and isinstance(x[1], str) and x[1].startswith("PV") and collide is not None \
+                            and x[1] == "PV%d" % collide:
+                        return [(INT(1), {})]
+                return [(INT(0), {})]
+            ext = absint.Explorer(prog, effects=eff, loop_bound=6,
+                                  summaries={"pcf_find_value": s_find, "pcf_add_value": s_add, "strcmp": s_cmp})
+            store_t = {}
+            for k_ in range(3):
+                store_t[("TT%d" % k_, F("task_type", "gid"))] = INT(11 + k_)
+                store_t[("TT%d" % k_, HHn)] = PTR("TT%d" % (k_ + 1)) if k_ < 2 else NULL
+            outs_t = [o for o in ext.run(tcp, [PTR("PCFT"), PTR("TT0")], store_t) if o.kind == "ret"]
+            inst = "task_create_pcf_types:already-labelled=%s%s" % ("".join(map(str, present)),
+                                                                    "" if collide is None else ":collision@%d" % collide)
+            if collide is not None:
+                ctx.check(bool(outs_t) and all(o.ret != INT(0) for o in outs_t), "R13.2", inst, tcp.loc(),
+                          "two task types with the same value and different labels are accepted")
+                continue
+            want_add = [INT(11 + k_) for k_ in range(3) if not present[k_]]
+            good = bool(outs_t) and all(o.ret == INT(0) for o in outs_t) and added == want_add
+            ctx.check(good, "R13.2", inst, tcp.loc(),
+                      "of the task types 11, 12, 13 of a process, of which %s already have a label from another process, "
+                      "labels are added for %s (expected %s): the task-type timeline would show values without a label" %
+                      ([11 + k_ for k_ in range(3) if present[k_]], [str(a_[1]) for a_ in added], [v_[1] for v_ in want_add]))
+
     # ---- R13.5 --------------------------------------------------------------------------------------
     ctx.rule("R13.5", "the code that declares types, labels and rows walks each list (threads, processes, CPUs, looms, "
              "mark types, PCF types ...) through the link that list is built with, so that every element is "
@@ -313,7 +355,8 @@ def run(ctx):
     listlinks.check(ctx, "R13.5", lambda file, name: file.startswith("src/emu/") and (
         file.endswith("/setup.c") or file.endswith("/breakdown.c") or file.startswith("src/emu/pv/") or
         file in ("src/emu/system.c", "src/emu/recorder.c", "src/emu/ovni/mark.c", "src/emu/model_cpu.c",
-                 "src/emu/model_thread.c", "src/emu/cpu.c", "src/emu/thread.c")), minimum=40)
+                 "src/emu/model_thread.c", "src/emu/cpu.c", "src/emu/thread.c", "src/emu/loom.c", "src/emu/proc.c",
+                 "src/emu/task.c")), minimum=40)
 
     # ---- R13.3 --------------------------------------------------------------------------------------
     writers = eff.writers_of_field("prv", "time")
@@ -458,6 +501,22 @@ def run(ctx):
             ctx.check(good, "R13.4", inst, pclose.loc(),
                       "prf_close does not print the declared row count followed by exactly that many names, one per "
                       "line and in row order (it writes %s)" % sorted(texts))
+    # breakdown traces: output i goes to row i and the trace declares one row per physical CPU (C20 R20.1's
+    # evaluation of the wiring): no record lands on a row beyond the declared count
+    from rules import C20 as _c20
+    from ovsa.engine import Ctx as _Ctx
+    sub20 = _Ctx("C20", prog, ctx.root, "quick")
+    _c20.run(sub20)
+    n20 = 0
+    for i_ in sub20.instances:
+        if i_["rule"] == "R20.1" and ("rows" in i_["inst"] or "physical-cpus-to-rows" in i_["inst"]):
+            n20 += 1
+            if i_["ok"]:
+                ctx.ok("R13.4", "breakdown:" + i_["inst"], i_["where"])
+            else:
+                ctx.fail("R13.4", "breakdown:" + i_["inst"], i_["where"], i_["what"] +
+                         " (records would be written on rows outside the count declared in the header)")
+    ctx.need(n20 >= 2, "R13.4: breakdown row instances not found (%d)" % n20)
     for o in sorted(declared_rows):
         if o in ("cpu", "thread"):
             continue
